@@ -14,8 +14,15 @@ from .types import Chunks2d
 
 
 def _find_common_type(array_types, scalar_types):
-    # TODO: don't use find_common_type as it's being removed from numpy
-    return np.find_common_type(array_types, scalar_types)
+    # np.find_common_type was removed in numpy 2.0, following the numpy
+    # migration guide: scalars only contribute their kind to the result
+    scalars = []
+    for st in scalar_types:
+        if np.issubdtype(st, np.complexfloating):
+            scalars.append(0j)
+        elif np.issubdtype(st, np.floating):
+            scalars.append(0.0)
+    return np.result_type(*array_types, *scalars)
 
 
 class BlockAssembler:
